@@ -45,6 +45,9 @@ def structural(ctx, rng, count, all32):
                 outs.append(None)
                 continue
             line = sm.model_line(inst, s, b)
+            if not b.con.variables():
+                ctx.count('skipped:constraint-without-variables')
+                continue
             try:
                 io = sm.impl_compile(b)
             except Exception as e:  # noqa: BLE001
@@ -70,8 +73,8 @@ def structural(ctx, rng, count, all32):
             else:
                 ctx.traces_validated += 1
             continue
-        a, m = sm.canon_pair(io, mo)
-        if common.canon_json(a) != common.canon_json(m):
+        if not sm.systems_equal(io, mo):
+            a, m = sm.canon_pair(io, mo)
             ctx.disagreement('structure', c, a, m)
         else:
             ctx.traces_validated += 1
